@@ -544,6 +544,14 @@ def gen_cases_words(rng, engs, n, out):
         for ei in ([0, 1] + ([rng.randrange(len(engs))] if len(engs) > 2 else [])):
             eng = engs[ei]
             out.append(dict(fam='word', eng=ei, text=w, exp=word_expect(eng, w), model=True, src=dict(w=lexcfg.cps(w)[:40])))
+            # the word behind a dot (`$.word`, `$x.word.word`): a literal denotes the same value wherever it stands; the
+            # tight spelling must be read like the spaced one
+            if len(w) < 200 and '.' in eng.ops:
+                we = word_expect(eng, w)
+                if we is not None:
+                    for head in ('$', '$x', '$.a'):
+                        out.append(dict(fam='member', eng=ei, text='%s.%s' % (head, w), exp=('member', head, w, we[0], we[1] if we[0] != 'err' else None),
+                                        model=True, src=dict(w=lexcfg.cps(w)[:40])))
             # `word(` is a call token whatever the word is
             out.append(dict(fam='func', eng=ei, text=w + '()', model=True, src=dict(w=lexcfg.cps(w)[:40]),
                             exp=('toks', [tok('FUNC', w, 0), tok('LIT', ')', len(w) + 1, ')')]), call=w))
@@ -630,6 +638,8 @@ def check_expectation(eng, case, real):
         return None
     if exp[0] == 'multi':
         return check_multi(eng, case)
+    if exp[0] == 'member':
+        return check_member(eng, case)
     kind, val = exp[1], exp[2]
     want = dict(ok=[tok(kind, val, 0)])
     if not lexcfg.same_result(real, want):
@@ -693,6 +703,41 @@ def check_multi(eng, case):
     return None
 
 
+def parse_outcome(eng, text):
+    try:
+        return ('ok', eng.engine(text).expression)
+    except exceptions.YaqlParsingException as e:
+        return ('err', type(e).__name__)
+    except Exception as e:      # noqa
+        return ('foreign', '%s: %s' % (type(e).__name__, e))
+
+
+def check_member(eng, case):
+    """`head.word`: read like `head . word`; true / false / null are the constants there too, any other word its own
+    text, an operator word is the operator (so the text is no complete expression)"""
+    _, head, w, kind, val = case['exp']
+    tight = parse_outcome(eng, case['text'])
+    spaced = parse_outcome(eng, '%s . %s' % (head.replace('.', ' . '), w))
+    if tight[0] == 'foreign':
+        return 'parsing raised %s' % tight[1]
+    if tight[0] != spaced[0] or (tight[0] == 'err' and tight[1] != spaced[1]) or \
+            (tight[0] == 'ok' and str(tight[1]) != str(spaced[1])):
+        return 'the tight spelling is read as %s, the same tokens with blanks between them as %s' % (
+            tight[1] if tight[0] != 'ok' else str(tight[1]), spaced[1] if spaced[0] != 'ok' else str(spaced[1]))
+    if tight[0] != 'ok':
+        return None
+    ex = tight[1]
+    right = ex.args[-1] if isinstance(ex, expressions.Function) and ex.args else None
+    if kind == 'toks' and w in ('true', 'false', 'null'):
+        want = {'true': True, 'false': False, 'null': None}[w]
+        if type(right) is not expressions.Constant or right.value is not want:
+            return 'the literal %s behind the dot is %r, not the constant' % (w, right)
+    elif kind == 'val':
+        if type(right) is not expressions.KeywordConstant or right.value != w:
+            return 'the word behind the dot is %r, not the keyword %s' % (right, short(w))
+    return None
+
+
 def short(v):
     r = repr(v)
     return r if len(r) < 70 else r[:40] + '...(%d chars)' % len(r)
@@ -747,7 +792,7 @@ def classify_failure(case):
         return 'keyword'
     if case['fam'] in ('pair', 'soup', 'next'):
         return 'lexer-total'
-    if case['fam'] == 'multi':
+    if case['fam'] in ('multi', 'member'):
         return 'literal-in-context'
     return 'string-literal'
 
